@@ -308,6 +308,65 @@ fn check_c05(d: &Doc) -> Result<(), Fail> {
 
 
 // ---------------------------------------------------------------------------------------------------------
+// C07, texts the document model does not generate: comments inside values (indented '#' lines), also as the first thing of a
+// value, and the control-file wrappers on fields with substitution variables or that are no relationship fields at all
+fn extra_c07() -> Result<(), Fail> {
+    use deb822_lossless::{Deb822, Indentation};
+    let lines_of = |v: &str| -> Vec<String> { v.lines().map(|l| l.trim().to_string()).filter(|l| !l.is_empty()).collect() };
+    let content = |x: &Deb822| -> Vec<Vec<(String, Vec<String>)>> { x.paragraphs().map(|p| p.items().map(|(k, v)| (k, lines_of(&v))).collect()).collect() };
+    // comments: whole lines whose first non-blank character is '#'
+    let comments = |t: &str| -> Vec<String> { t.lines().filter(|l| l.trim_start().starts_with('#')).map(|l| l.trim().to_string()).collect() };
+    let texts = ["Depends:\n # c\n foo,\n bar\n", "Depends: a,\n # c\n foo\n", "Depends:\n # only\n", "A: 1\nDepends:\n # c1\n # c2\n x\n\nB:\n # d\n y\n",
+                 "Build-Depends: zlib1g-dev,\n # only needed for the test suite\n check,\n bison\n"];
+    for text in texts {
+        let doc = match Deb822::from_str(text) { Ok(d) => d, Err(_) => continue };
+        for ind in [Indentation::Spaces(1), Indentation::Spaces(3), Indentation::FieldNameLength] { for iel in [false, true] { for mll in [None, Some(30usize)] { for fmt in [0, 1, 2] {
+            let shown = format!("{:?} with indentation {:?}, immediate_empty_line {}, max_line_length_one_liner {:?}, formatter {}", text, ind, iel, mll, ["none", "identity", "sorting the comma-separated items"][fmt]);
+            let ident = |_k: &str, v: &str| v.to_string();
+            let sorting = |_k: &str, v: &str| { let mut items: Vec<String> = v.split(',').map(|x| x.trim().to_string()).filter(|x| !x.is_empty()).collect(); items.sort(); items.join(",\n") };
+            let f: Option<&dyn Fn(&str, &str) -> String> = match fmt { 0 => None, 1 => Some(&ident), _ => Some(&sorting) };
+            let run = |x: &Deb822| -> Deb822 { let ws = |p: &deb822_lossless::Paragraph| p.wrap_and_sort(ind, iel, mll, None, f); x.wrap_and_sort(None, Some(&ws)) };
+            let out = match std::panic::catch_unwind(std::panic::AssertUnwindSafe(|| run(&doc))) { Ok(o) => o, Err(_) => report!("C07", shown, "wrap_and_sort panics", "a document".to_string(), "panic".to_string()) };
+            let t2 = out.to_string();
+            let back = match Deb822::from_str(&t2) { Ok(b) => b, Err(e) => report!("C07", shown, "the reformatted document does not parse strictly", "Ok".to_string(), format!("{:?} for {:?}", e, t2)) };
+            // (a sorting formatter may reorder the items of a value it is shown; a value with a comment inside is not shown to it)
+            let norm = |c: Vec<Vec<(String, Vec<String>)>>| -> Vec<Vec<(String, Vec<String>)>> { c.into_iter().map(|p| p.into_iter().map(|(k, mut ls)| { if fmt == 2 { ls = ls.iter().map(|l| l.trim_end_matches(',').to_string()).collect(); ls.sort(); } (k, ls) }).collect()).collect() };
+            if norm(content(&back)) != norm(content(&doc)) { report!("C07", shown, "the reformatted document does not keep every field with its non-blank value lines", format!("{:?}", content(&doc)), format!("{:?} from {:?}", content(&back), t2)); }
+            if content(&out) != content(&back) { report!("C07", shown, "the returned object reports other content than its printed text", format!("{:?}", content(&back)), format!("{:?}", content(&out))); }
+            if comments(&t2) != comments(text) { report!("C07", shown, "a comment inside a value is lost, changed or no longer on a line of its own", format!("{:?}", comments(text)), format!("{:?} in {:?}", comments(&t2), t2)); }
+            let again = run(&back).to_string();
+            if again != t2 { report!("C07", shown, "reformatting the result again with the same settings changes it", format!("{:?}", t2), format!("{:?}", again)); }
+        } } } }
+    }
+    // control-file wrappers
+    let controls = ["Source: x\nBuild-Depends: foo (\n", "Source: x\nBuild-Depends: b, a\n\nPackage: y\nDepends: ${misc:Depends}, foo,\n bar (>= 1)\n# about z\n\nPackage: z\nDepends: ${shlibs:Depends}\n",
+                    "Source: s\nUploaders: B <b@x>, A <a@x>\n\n# c\nPackage: p\nRecommends: q | r, ${x:Y}\n",
+                    "Source: mango\n\nPackage: b\n\nSource: apple\n\nPackage: a\n"];
+    for text in controls {
+        for iel in [false, true] { for mll in [None, Some(40usize)] {
+            let shown = format!("Control::wrap_and_sort of {:?} with immediate_empty_line {}, max_line_length_one_liner {:?}", text, iel, mll);
+            let run = |t: &str| -> Option<String> { let mut c: debian_control::lossless::control::Control = t.parse().ok()?; c.wrap_and_sort(Indentation::Spaces(1), iel, mll); Some(c.to_string()) };
+            let t2 = match std::panic::catch_unwind(std::panic::AssertUnwindSafe(|| run(text))) { Ok(Some(o)) => o, Ok(None) => continue, Err(_) => report!("C07", shown, "Control::wrap_and_sort panics", "a document".to_string(), "panic".to_string()) };
+            let (a, b) = match (Deb822::from_str(text), Deb822::from_str(&t2)) { (Ok(a), Ok(b)) => (a, b), _ => report!("C07", shown, "the reformatted control file does not parse strictly", "Ok".to_string(), format!("{:?}", t2)) };
+            let names = |x: &Deb822| -> Vec<Vec<String>> { let mut v: Vec<Vec<String>> = x.paragraphs().map(|p| { let mut k: Vec<String> = p.keys().collect(); k.sort(); k }).collect(); v.sort(); v };
+            if names(&a) != names(&b) { report!("C07", shown, "the reformatted control file does not keep every paragraph and field", format!("{:?}", names(&a)), format!("{:?} from {:?}", names(&b), t2)); }
+            if comments(&t2) != comments(text) { report!("C07", shown, "a comment is lost or changed", format!("{:?}", comments(text)), format!("{:?} in {:?}", comments(&t2), t2)); }
+            for v in ["${misc:Depends}", "${shlibs:Depends}", "${x:Y}"] { if text.contains(v) && !t2.contains(v) { report!("C07", shown, "a substitution variable of a relationship field is lost", v.to_string(), format!("{:?}", t2)); } }
+            // the wrapper asks for a sorted order (sources first, then packages, each by name): the result is a function of the
+            // paragraphs, not of the order they came in
+            let paras: Vec<&str> = text.trim_end_matches('\n').split("\n\n").collect();
+            if paras.len() > 1 {
+                let rev: String = paras.iter().rev().map(|p| format!("{}\n", p)).collect::<Vec<_>>().join("\n");
+                match std::panic::catch_unwind(std::panic::AssertUnwindSafe(|| run(&rev))) {
+                    Ok(Some(t3)) => if t3 != t2 { report!("C07", shown, "the order of the paragraphs in the result depends on the order they came in", format!("{:?}", t2), format!("{:?} for the paragraphs in reverse", t3)); },
+                    _ => report!("C07", shown, "reformatting the same paragraphs in reverse order fails", "a document".to_string(), "panic or parse error".to_string()),
+                }
+            }
+            match std::panic::catch_unwind(std::panic::AssertUnwindSafe(|| run(&t2))) { Ok(Some(again)) => if again != t2 { report!("C07", shown, "reformatting the result again with the same settings changes it", format!("{:?}", t2), format!("{:?}", again)); }, _ => report!("C07", shown, "reformatting the result again fails", "a document".to_string(), "panic or parse error".to_string()) }
+        } }
+    }
+    Ok(())
+}
 // C07: wrap-and-sort of deb822 documents under a grid of settings
 fn check_c07(d: &Doc) -> Result<(), Fail> {
     use deb822_lossless::{Deb822, Indentation, Paragraph};
@@ -676,9 +735,26 @@ mod rel {
                 Ok(b) if b == rel => {}
                 other => return Err(Fail { prop: "C14".into(), input: t.clone(), what: "printed lossy Relation does not read back equal".into(), expected: format!("{:?}", rel), got: format!("{:?}", other) }),
             }
+            // conversion clause: lossy -> lossless prints the same text, and back gives the value (an architecture list, where
+            // present, has at least one element: "foo []" is no valid component)
+            let convertible = |x: &Relation| x.architectures.as_ref().map(|a| !a.is_empty()).unwrap_or(true);
+            if convertible(&rel) {
+                let ll: debian_control::lossless::relations::Relation = rel.clone().into();
+                if ll.to_string() != t { return Err(Fail { prop: "C14".into(), input: t.clone(), what: "the lossless form of a lossy relation prints other text than the lossy one".into(), expected: t.clone(), got: ll.to_string() }); }
+                let back: Relation = ll.into();
+                if back != rel { return Err(Fail { prop: "C14".into(), input: t.clone(), what: "lossy -> lossless -> lossy does not return the relation".into(), expected: format!("{:?}", rel), got: format!("{:?}", back) }); }
+            }
             // a field of 1..3 entries of 1..2 alternatives
             let ne = 1 + r.below(3);
             let rels = Relations((0..ne).map(|_| { let na = 1 + r.below(2); (0..na).map(|_| gen(&mut r)).collect() }).collect());
+            for e in &rels.0 {
+                if !e.iter().all(|x| convertible(x)) { continue; }
+                let want: String = e.iter().map(|x| x.to_string()).collect::<Vec<_>>().join(" | ");
+                let le: debian_control::lossless::relations::Entry = e.clone().into();
+                if le.to_string() != want { return Err(Fail { prop: "C14".into(), input: want.clone(), what: "the lossless form of a list of lossy alternatives prints other text".into(), expected: want.clone(), got: le.to_string() }); }
+                let back: Vec<Relation> = le.into();
+                if &back != e { return Err(Fail { prop: "C14".into(), input: want.clone(), what: "alternatives: lossy -> lossless entry -> lossy does not return the list".into(), expected: format!("{:?}", e), got: format!("{:?}", back) }); }
+            }
             let t = rels.to_string();
             match Relations::from_str(&t) {
                 Ok(b) if b == rels => {}
@@ -726,7 +802,9 @@ mod sat {
             // installed: 0..3 packages
             let ni = r.below(4);
             let mut map: HashMap<String, Version> = HashMap::new();
-            for _ in 0..ni { map.insert(r.pick(NAMES).to_string(), r.pick(VERSIONS).parse().unwrap()); }
+            // installed names also in forms a field never asks for by that text ("libfoo:amd64" is not "libfoo")
+            const INSTALLED: &[&str] = &["foo", "foo-dev", "libfoo", "libfoo1", "bar", "b", "libfoo:amd64", "foo:any", "Foo"];
+            for _ in 0..ni { map.insert(r.pick(INSTALLED).to_string(), r.pick(VERSIONS).parse().unwrap()); }
             let want = field.iter().all(|e| e.iter().any(|a| match map.get(&a.name) { None => false, Some(iv) => match &a.version { None => true, Some((c, v)) => holds(c, iv, v) } }));
             n += 1;
             let desc = format!("field {:?} installed {:?}", text, map.iter().map(|(k, v)| format!("{}={}", k, v)).collect::<Vec<_>>());
@@ -1440,6 +1518,7 @@ fn main() {
             Err(f) => f.print_and_exit(),
         }
     }
+    if prop == "C07" { if let Err(f) = extra_c07() { f.print_and_exit(); } }
     let mut r = Rng(crate::seed_mix(0x9E3779B97F4A7C15));
     // all single-field documents over the pools
     let mut docs: Vec<Doc> = Vec::new();
